@@ -11,24 +11,25 @@ fn filter_of(k: u8) -> LevelFilter {
     match k { 0 => LevelFilter::OFF, 1 => LevelFilter::ERROR, 2 => LevelFilter::WARN, 3 => LevelFilter::INFO, 4 => LevelFilter::DEBUG, _ => LevelFilter::TRACE }
 }
 
-static EVENTS: [AtomicUsize; 2] = [AtomicUsize::new(0), AtomicUsize::new(0)];
-static SPANS: [AtomicUsize; 2] = [AtomicUsize::new(0), AtomicUsize::new(0)];
-/// dynamic verdict of collector 0 ("cur") for the next `enabled` call: flipped between emissions
-static DYN: AtomicU8 = AtomicU8::new(0);
+// NOTE: all recording state lives inside the collectors (heap), not in statics: Kani 0.68 was observed to alias a
+// harness-module static with tracing-core's private MAX_LEVEL when `LevelFilter::current()` is inlined cross-crate.
+use std::sync::Arc;
+struct St { events: [AtomicUsize; 2], spans: [AtomicUsize; 2], dynamic: AtomicU8 }
+fn new_st() -> Arc<St> { Arc::new(St { events: [AtomicUsize::new(0), AtomicUsize::new(0)], spans: [AtomicUsize::new(0), AtomicUsize::new(0)], dynamic: AtomicU8::new(0) }) }
 
 /// An arbitrary self-consistent collector: static answer `ans` (0 never / 1 sometimes / 2 always) for every
-/// callsite, optional hint (rank, 6 = none), dynamic verdict read from DYN (collector 0) or fixed (collector 1).
-struct Rec { i: usize, ans: u8, hint: u8, dynamic: bool }
+/// callsite, optional hint (rank, 6 = none), dynamic verdict read from the shared state (collector 0) or fixed (collector 1).
+struct Rec { i: usize, ans: u8, hint: u8, dynamic: bool, s: Arc<St> }
 impl Collect for Rec {
     fn register_callsite(&self, _: &'static Metadata<'static>) -> Interest {
         match self.ans { 0 => Interest::never(), 1 => Interest::sometimes(), _ => Interest::always() }
     }
     fn max_level_hint(&self) -> Option<LevelFilter> { if self.hint <= 5 { Some(filter_of(self.hint)) } else { None } }
-    fn enabled(&self, _: &Metadata<'_>) -> bool { if self.i == 0 { DYN.load(AO::SeqCst) != 0 } else { self.dynamic } }
-    fn new_span(&self, _: &span::Attributes<'_>) -> span::Id { SPANS[self.i].fetch_add(1, AO::SeqCst); span::Id::from_u64(1) }
+    fn enabled(&self, _: &Metadata<'_>) -> bool { if self.i == 0 { self.s.dynamic.load(AO::SeqCst) != 0 } else { self.dynamic } }
+    fn new_span(&self, _: &span::Attributes<'_>) -> span::Id { self.s.spans[self.i].fetch_add(1, AO::SeqCst); span::Id::from_u64(1) }
     fn record(&self, _: &span::Id, _: &span::Record<'_>) {}
     fn record_follows_from(&self, _: &span::Id, _: &span::Id) {}
-    fn event(&self, _: &Event<'_>) { EVENTS[self.i].fetch_add(1, AO::SeqCst); }
+    fn event(&self, _: &Event<'_>) { self.s.events[self.i].fetch_add(1, AO::SeqCst); }
     fn enter(&self, _: &span::Id) {}
     fn exit(&self, _: &span::Id) {}
     fn current_span(&self) -> tracing_core::span::Current { tracing_core::span::Current::unknown() }
@@ -38,7 +39,7 @@ impl Collect for Rec {
 fn accepts(ans: u8, dynamic: bool) -> bool { ans == 2 || (ans == 1 && dynamic) }
 
 /// symbolic self-consistent collector 0 for a callsite of rank `lvl`, plus an arbitrary earlier collector 1
-fn scenario(lvl: u8) -> (Dispatch, u8) {
+fn scenario(lvl: u8, s: &Arc<St>) -> (Dispatch, u8) {
     let ans: u8 = nd(); kani::assume(ans <= 2);
     let hint: u8 = nd(); kani::assume(hint <= 6);
     // self-consistency of collector 0 (hypothesis of the property): the hint is a true upper bound of what it accepts
@@ -48,84 +49,94 @@ fn scenario(lvl: u8) -> (Dispatch, u8) {
     let ohint: u8 = nd(); kani::assume(ohint <= 6);
     let other_dropped: bool = nd();
     // the earlier collector is created first (its Dispatch::new sees no callsite yet), then the current one
-    let other = Dispatch::new(Rec { i: 1, ans: oans, hint: ohint, dynamic: false });
-    let cur = Dispatch::new(Rec { i: 0, ans, hint, dynamic: false });
+    let other = Dispatch::new(Rec { i: 1, ans: oans, hint: ohint, dynamic: false, s: s.clone() });
+    let cur = Dispatch::new(Rec { i: 0, ans, hint, dynamic: false, s: s.clone() });
     if other_dropped { drop(other); } else { core::mem::forget(other); }
     (cur, ans)
 }
-fn set_dyn(ans: u8) -> bool {
+fn set_dyn(ans: u8, s: &Arc<St>) -> bool {
     let d: bool = nd();
     // self-consistency: 'never' => dynamic check false, 'always' => true
     kani::assume(!(ans == 0 && d)); kani::assume(!(ans == 2 && !d));
-    DYN.store(d as u8, AO::SeqCst);
+    s.dynamic.store(d as u8, AO::SeqCst);
     d
 }
 
 macro_rules! event_guard_body {
     ($lvl:expr, $rank:expr) => {{
         fn emit() { crate::event!($lvl, answer = 42u64); }
-        let (cur, ans) = scenario($rank);
+        let s = new_st();
+        let (cur, ans) = scenario($rank, &s);
         crate::dispatch::with_default(&cur, || {
-            let d1 = set_dyn(ans);
+            let d1 = set_dyn(ans, &s);
             emit();                                   // first hit: registers the callsite
-            assert!(EVENTS[0].load(AO::SeqCst) == accepts(ans, d1) as usize, "C01.event.first_hit.delivered_iff_own_filter_accepts");
-            let d2 = set_dyn(ans);                    // the dynamic filter flips (or not)
+            assert!(s.events[0].load(AO::SeqCst) == accepts(ans, d1) as usize, "C01.event.first_hit.delivered_iff_own_filter_accepts");
+            let d2 = set_dyn(ans, &s);                // the dynamic filter flips (or not)
             emit();                                   // cached hit
-            assert!(EVENTS[0].load(AO::SeqCst) == accepts(ans, d1) as usize + accepts(ans, d2) as usize, "C01.event.cached_hit.delivered_iff_own_filter_accepts");
+            assert!(s.events[0].load(AO::SeqCst) == accepts(ans, d1) as usize + accepts(ans, d2) as usize, "C01.event.cached_hit.delivered_iff_own_filter_accepts");
         });
-        assert!(EVENTS[1].load(AO::SeqCst) == 0, "C01.event.never_delivered_to_a_non_current_collector");
+        assert!(s.events[1].load(AO::SeqCst) == 0, "C01.event.never_delivered_to_a_non_current_collector");
     }};
 }
+// TIER: thorough
 #[kani::proof]
 #[kani::unwind(4)]
 #[kani::stub(core::fmt::Formatter::pad, pad_stub)]
 fn c01_event_guard_error() { event_guard_body!(Level::ERROR, 1); }
+// TIER: thorough
 #[kani::proof]
 #[kani::unwind(4)]
 #[kani::stub(core::fmt::Formatter::pad, pad_stub)]
 fn c01_event_guard_warn() { event_guard_body!(Level::WARN, 2); }
+// TIER: thorough
 #[kani::proof]
 #[kani::unwind(4)]
 #[kani::stub(core::fmt::Formatter::pad, pad_stub)]
 fn c01_event_guard_info() { event_guard_body!(Level::INFO, 3); }
+// TIER: thorough
 #[kani::proof]
 #[kani::unwind(4)]
 #[kani::stub(core::fmt::Formatter::pad, pad_stub)]
 fn c01_event_guard_debug() { event_guard_body!(Level::DEBUG, 4); }
+// TIER: thorough
 #[kani::proof]
 #[kani::unwind(4)]
 #[kani::stub(core::fmt::Formatter::pad, pad_stub)]
 fn c01_event_guard_trace() { event_guard_body!(Level::TRACE, 5); }
 
+// TIER: thorough
 #[kani::proof]
 #[kani::unwind(4)]
 #[kani::stub(core::fmt::Formatter::pad, pad_stub)]
 fn c01_span_guard_debug() {
     fn mk() -> crate::Span { crate::span!(Level::DEBUG, "s", answer = 42u64) }
-    let (cur, ans) = scenario(4);
+    let s = new_st();
+    let (cur, ans) = scenario(4, &s);
     crate::dispatch::with_default(&cur, || {
-        let d1 = set_dyn(ans);
+        let d1 = set_dyn(ans, &s);
         let s1 = mk();
-        assert!(SPANS[0].load(AO::SeqCst) == accepts(ans, d1) as usize, "C01.span.first_hit.created_iff_own_filter_accepts");
+        assert!(s.spans[0].load(AO::SeqCst) == accepts(ans, d1) as usize, "C01.span.first_hit.created_iff_own_filter_accepts");
         assert!(s1.is_disabled() == !accepts(ans, d1), "C01.span.first_hit.handle_disabled_iff_rejected");
-        let d2 = set_dyn(ans);
+        let d2 = set_dyn(ans, &s);
         let s2 = mk();
-        assert!(SPANS[0].load(AO::SeqCst) == accepts(ans, d1) as usize + accepts(ans, d2) as usize, "C01.span.cached_hit.created_iff_own_filter_accepts");
+        assert!(s.spans[0].load(AO::SeqCst) == accepts(ans, d1) as usize + accepts(ans, d2) as usize, "C01.span.cached_hit.created_iff_own_filter_accepts");
         core::mem::forget(s1); core::mem::forget(s2);
     });
-    assert!(SPANS[1].load(AO::SeqCst) == 0, "C01.span.never_created_on_a_non_current_collector");
+    assert!(s.spans[1].load(AO::SeqCst) == 0, "C01.span.never_created_on_a_non_current_collector");
 }
 
+// TIER: thorough
 #[kani::proof]
 #[kani::unwind(4)]
 #[kani::stub(core::fmt::Formatter::pad, pad_stub)]
 fn c01_enabled_probe_warn() {
     fn probe() -> bool { crate::enabled!(Level::WARN) }
-    let (cur, ans) = scenario(2);
+    let s = new_st();
+    let (cur, ans) = scenario(2, &s);
     crate::dispatch::with_default(&cur, || {
-        let d1 = set_dyn(ans);
+        let d1 = set_dyn(ans, &s);
         assert!(probe() == accepts(ans, d1), "C01.enabled.first_hit.iff_own_filter_accepts");
-        let d2 = set_dyn(ans);
+        let d2 = set_dyn(ans, &s);
         assert!(probe() == accepts(ans, d2), "C01.enabled.cached_hit.iff_own_filter_accepts");
     });
 }
